@@ -203,9 +203,7 @@ func (f *FrozenFunds) get(height uint64) *Model {
 	ff.height = height
 	ff.markDirty = f.markDirty
 
-	f.setToMap(height, ff)
-
-	return ff
+	return f.setToMapIfAbsent(height, ff)
 }
 
 func (f *FrozenFunds) markDirty(height uint64) {
@@ -281,6 +279,20 @@ func (f *FrozenFunds) setToMap(height uint64, model *Model) {
 	defer f.lock.Unlock()
 
 	f.list[height] = model
+}
+
+// setToMapIfAbsent caches a model that was just loaded from the tree and returns the cached one: a
+// concurrent read-only query must not replace the model block execution is already working on.
+func (f *FrozenFunds) setToMapIfAbsent(height uint64, model *Model) *Model {
+	f.lock.Lock()
+	defer f.lock.Unlock()
+
+	if cached := f.list[height]; cached != nil {
+		return cached
+	}
+
+	f.list[height] = model
+	return model
 }
 
 func getPath(height uint64) []byte {
